@@ -477,12 +477,15 @@ fn ss_run_inner(r: &mut Rng, id: String, o: &SsOpts, trunc: Option<bool>) -> Run
     let init = match o.init {
         0 => None,
         1 => Some(InitTrainState::new(Some(uc::S * t0), Some(uc::M * off0), Some(uc::MPS * v0))),
+        // 3: only the CLOCK of the initial state differs from the trace's first stamp (a trimmed trace, wall-clock stamps):
+        // position and speed are consistent, the simulated time has to follow the trace from the first step on
+        3 => Some(InitTrainState::new(Some(uc::S * (t0 + 7.0)), Some(uc::M * off0), Some(uc::MPS * v0))),
         _ => Some(InitTrainState::new(Some(uc::S * (t0 + 7.0)), Some(uc::M * off0), Some(uc::MPS * (v0 + 1.5)))),
     };
     if o.init == 0 { times[0] = 0.0; }
     let mut tags = route.tags.clone(); tags.extend(train.tags.clone());
     tags.push(format!("trace:{}", if o.irregular { "irregular" } else { "regular" }));
-    tags.push(format!("init:{}", ["default", "custom", "inconsistent"][o.init as usize]));
+    tags.push(format!("init:{}", ["default", "custom", "inconsistent", "clock_differs"][o.init as usize]));
     tags.push(format!("train_vs_links:{}", { let m = route.path.iter().map(|l| route.network[l.idx()].length.value).fold(f64::INFINITY, f64::min);
         let mx = route.path.iter().map(|l| route.network[l.idx()].length.value).fold(0.0, f64::max);
         if tl > mx { "longer_than_every_link" } else if tl < m { "shorter_than_every_link" } else { "between" } }));
